@@ -111,12 +111,20 @@ def run(ctx) -> None:
              "keyed by the identifier (which would merge duplicates before anyone can reject them)")
     ctx.rule("C11.R9-errors-are-raised", "in the loader modules an exception object is never built and dropped: a call to an error class as an "
              "expression statement is a rejection that does not happen")
+    ctx.rule("C11.R10-validators-see-process-constant-tables", "the class-level collections of FlowIR that decide whether 'name:ref' is a component or "
+             "a folder (SpecialFolders, ...) are never mutated in place: otherwise what one load reserved makes a later load accept a "
+             "reference to a component that does not exist")
     ctx.assume("implicit exceptions (subscripts, library calls) outside try blocks are not modelled")
     ctx.assume("calls are resolved by name (self.<method> within the class, FlowIR.<method>, module functions)")
 
     conf = ctx.repo.module(CONF)
     fl = ctx.repo.module(FLOWIR)
     err = ctx.repo.module(ERRORS)
+    from checks.c09 import check_reserved_constants
+    check_reserved_constants(ctx, fl, "C11.R10-validators-see-process-constant-tables",
+                             "the folder names of one workflow (e.g. its application dependencies) stay reserved for the rest of the process: a "
+                             "later workflow whose component 'solver' was dropped but which still references 'solver:ref' is no longer rejected - "
+                             "validate_references classifies the dangling reference as a folder")
     hier = escape.Hierarchy([err])
     cls = conf.cls(CLS)
     methods = {st.name: st for st in cls.body if isinstance(st, ast.FunctionDef)}
